@@ -1,12 +1,15 @@
 #!/usr/bin/env python3
 """C20 — no input can corrupt memory in any program of the suite.   (proof, PARTIAL — see notes/C20.md)
 
-Eleven harness binaries (seven sources) feed one compiled Lean driver (drv_c20):
+Twelve harness binaries (eight sources) feed one compiled Lean driver (drv_c20):
   harness/c20_lib.c    gen_allocdefs.h / stralloc_*.c / quote.c doit() / substdo.c / substdi.c   vs Nq.Stralloc, Nq.Substdio
   harness/c20_dns.c    dns.c resolve/findname/findip/findmx/dns_ip/dns_mxip/dns_ptr (interposed resolver, poisoned
                        buffer tail)                                                              vs Nq.Dns
   harness/c20_parse.c  token822 / cdb_seek / control+constmap / ip_scan / headerbody+hfield / getln / scan   (sanitised
-                       in-process execution; cdb_seek also vs Nq.Users.cdbSeek)
+                       in-process execution; cdb_seek also vs Nq.Users.cdbSeek; token822_parse's two passes vs Nq.TokPass,
+                       token822_unparse/unquote's two walks vs Nq.TokFill (kinds tok, utok); getln2 call by call vs Nq.Getln (kind gl2))
+  harness/c20_local.c  the real qmail-local main() in-process: counting pass (calloc argument) vs filling pass (qmail_to
+                       calls, count_forward) over .qmail contents                                                    vs Nq.LocalPass
   harness/c20_fixed.c  qmail-qmqpd getbuf(), qmail-qmtpd main() sender/recipient, qmail-getpw userext(), qmail.c qmail_errstr(),
                        quote.c quote_need(): which bytes of the fixed buffers are stored to / read                vs Nq.FixedBuf
   harness/c20_report.c report() of qmail-rspawn.c / qmail-lspawn.c on exact-size child output           vs Nq.Spawn.reportBody
@@ -25,8 +28,8 @@ from nqlib import Check, VERIF, NCPU, sh, run_pipeline, parse_driver_output, sta
 
 PROP = "C20"
 PROGS = "qmail-smtpd qmail-qmtpd qmail-qmqpd qmail-pop3d qmail-popup qmail-inject qmail-local"
-ARGS = {"quick": dict(level=1, nlib=16000, ndns=48000, nparse=20000, nprog=3000, nrep=20000, nctl=3000),
-        "thorough": dict(level=2, nlib=400000, ndns=600000, nparse=160000, nprog=24000, nrep=200000, nctl=40000)}
+ARGS = {"quick": dict(level=1, nlib=16000, ndns=48000, nparse=20000, nprog=3000, nrep=20000, nctl=3000, nloc=20000),
+        "thorough": dict(level=2, nlib=400000, ndns=600000, nparse=160000, nprog=24000, nrep=200000, nctl=40000, nloc=300000)}
 ASAN = "detect_leaks=0:allocator_may_return_null=1"
 
 RULE = ("(1) c20_lib: gen_alloc ready/readyplus for EVERY pair of 40 edge values of (len|a, n) in 0..2^32-1 (1, 8, 16, 24-byte elements; null and non-null "
@@ -40,7 +43,14 @@ RULE = ("(1) c20_lib: gen_alloc ready/readyplus for EVERY pair of 40 edge values
         "real resolve()/find*() (dn_expand = libc's, logged) and through dns_ip/dns_mxip/dns_ptr, tail of the response buffer poisoned. "
         "(3) c20_parse: about 1.5M (13M) in-process cases: token822 over a 16-character alphabet to length 4/5, nesting to 100000, 50000 repetitions; corrupt/truncated "
         "cdb files at every truncation and every field corruption; control files / constmap with huge lines, NULs, 20000 entries; ip_scan over {0,1,9,.,[,],x}^<=7; "
-        "headerbody/hfield; getln over every chunking; %(nparse)s random. "
+        "headerbody/hfield; getln over every chunking; %(nparse)s random. For token822 the sizes of the two fresh blocks (= pass 1's numtoks/numchars), the token records "
+        "and buffer bytes pass 2 really wrote, and stralloc a / final len of token822_unparse (linelen 0, 72, 1, reversed array) and token822_unquote are compared with "
+        "Nq.TokPass / Nq.TokFill; every byte value 0..255 in 10 contexts; hand-made token arrays (kind utok: every sequence of <=2 of 29 token shapes x 5 line lengths, <=3 of 21(29) shapes x 3, "
+        "1..40 items x line lengths 0..14, also token types outside TOKEN822_*); getln2() called directly (kind gl2) on every stream over {a,LF,NUL} to length 6 (all chunkings x buffers 1,2,3,16), line lengths 0..140 and random streams: per call "
+        "return value, cont - ss.x, clen, sa.len, sa.a, ss.p, ss.n compared with Nq.Getln. "
+        "(3a) c20_local: the real qmail-local main() in-process on every sequence of <=2(3) of 29 line shapes (blank, TAB, #, ., /, |, +list, &, address, leading/trailing blanks) with and without final newline and x bit, every first byte 0..255 "
+        "alone / before an address in first / second position, 1..20000 lines, NUL bytes, lines around 256 bytes, %(nloc)s random contents; -n and real mode (real mode only without mbox/maildir/program lines; qmail.o replaced by counting hooks): "
+        "calloc argument, qmail_to calls, count_forward and exit code compared with Nq.LocalPass. "
         "(3b) c20_report: report() of qmail-rspawn and qmail-lspawn on every child output over {r,h,s,K,Z,D,NUL,x} up to length 5(6) and %(nrep)s random outputs up to 5000 "
         "bytes in exact-size blocks, 11 wait statuses. "
         "(3c) c20_fixed: the real getbuf() for every declared length 0..1100 (and 1500..2000000009) at full / cut streams, qmail-qmtpd's main() on sender x recipient "
@@ -174,9 +184,11 @@ def main():
                 fxs = [ex.submit(s.cc, os.path.join(VERIF, "harness/c20_fixed.c"), os.path.join(s.dir, "h_c20_fx_" + n), like, "", "-DFX_" + n.upper(), excl)
                        for n, like, excl in (("qmqpd", "qmail-qmqpd", []), ("qmtpd", "qmail-qmtpd", ["qmail.o", "auto_qmail.o"]),
                                              ("getpw", "qmail-getpw", []), ("qq", "qmail-inject", ["qmail.o"]))]
+                flo = ex.submit(s.cc, os.path.join(VERIF, "harness/c20_local.c"), os.path.join(s.dir, "h_c20_local"), "qmail-local", "", "", ["qmail.o"])
                 hl, hd, hp, hr, hrr, hrl = fl.result(), fd.result(), fp.result(), fr.result(), frr.result(), frl.result()
                 hfx = [x.result() for x in fxs]
                 hc = fc.result()
+                hlo = flo.result()
             drv = driver_path("drv_c20")
             phase["harness_build_s"] = round(time.time() - t2, 1)
 
@@ -186,7 +198,7 @@ def main():
 
             def all_on(path):
                 return group(["%s - < %s" % (hl, path), "%s - < %s" % (hd, path), "%s %s - < %s" % (hp, work, path),
-                              "%s - < %s" % (hrr, path), "%s - < %s" % (hrl, path), "%s %s - < %s" % (hc, work, path)] + ["%s %s - < %s" % (x, work, path) for x in hfx] + [
+                              "%s - < %s" % (hrr, path), "%s - < %s" % (hrl, path), "%s %s - < %s" % (hc, work, path), "%s %s - < %s" % (hlo, work, path)] + ["%s %s - < %s" % (x, work, path) for x in hfx] + [
                               "%s %s %s %s - < %s" % (hr, s.dir, qhome, work, path)])
 
             def shard(i):
@@ -195,7 +207,8 @@ def main():
                               "%s %s %d %d %d %d %d" % (hp, work, a["level"], a["nparse"], c.seed, i, NCPU),
                               "%s %d %d %d %d %d" % (hrr, a["level"] + 4, a["nrep"], c.seed, i, NCPU),
                               "%s %d %d %d %d %d" % (hrl, a["level"] + 4, a["nrep"], c.seed, i, NCPU),
-                              "%s %s %d %d %d %d %d" % (hc, work, a["level"], a["nctl"], c.seed, i, NCPU)] +
+                              "%s %s %d %d %d %d %d" % (hc, work, a["level"], a["nctl"], c.seed, i, NCPU),
+                              "%s %s %d %d %d %d %d" % (hlo, work, a["level"], a["nloc"], c.seed, i, NCPU)] +
                              ["%s %s %d %d %d %d" % (x, work, a["level"], c.seed, i, NCPU) for x in hfx] + [
                               "%s %s %s %s %d %d %d %d %d" % (hr, s.dir, qhome, work, a["level"], a["nprog"], c.seed, i, NCPU)])
 
@@ -270,11 +283,14 @@ def main():
     c.cov["explanation"] = (
         "PARTIAL proof. Proved (Nq/Props/C20.lean, all lengths, no bound): the length/index arithmetic of gen_alloc readyplus/ready/append, stralloc_catb/copyb, "
         "quote.c doit()/quote_need() (all lengths; counter types read from the source), substdio put/bput/flush/putflush/feed/get with the stream laws, the fixed buffers of qmail-qmqpd, "
-        "qmail-qmtpd, qmail-getpw, qmail.c errstr, spawn.c slots/truncation, qmail-send REPORTMAX, qmail-pop3d msgno, and dns.c findname/findip/findmx/resolve. "
-        "NOT proved: absence of undefined behaviour elsewhere in the compiled C (every parser's own loops, pointer aliasing, signal handlers, libc/libresolv); that part "
+        "qmail-qmtpd, qmail-getpw, qmail.c errstr, spawn.c slots/truncation, qmail-send REPORTMAX, qmail-pop3d msgno, dns.c findname/findip/findmx/resolve, and (session 4) the count-allocate-fill "
+        "patterns: token822_parse pass 1 vs pass 2, token822_unparse/unquote length walk vs fill walk, qmail-local's numforward count vs recips[] stores, plus getln2/getln/byte_chr (cont/clen inside the substdio buffer, copies inside the grown line buffer). "
+        "NOT proved: absence of undefined behaviour elsewhere in the compiled C (the other parsers' loops - token822_addrlist, headerbody, hfield, control, constmap, ip, scan -, pointer aliasing, signal handlers, libc/libresolv); that part "
         "is covered only by the sanitised executions counted in 'evaluations' (kinds T.*, P.*, H = control-file re-read histories of qmail-send, and the ASan/UBSan instrumentation of all kinds) and by the sanitised "
         "harnesses of C01-C19.")
     c.assumptions += [
+        "token822.c keeps C int counters (salen, numtoks, numchars, len): the models count in unbounded naturals, i.e. fields / unparsed outputs below 2^31 bytes; substdio buffer sizes are below 2^32 (substdio.n is an int)",
+        "c20_local runs qmail-local's main() with qmail.o (qmail_open/put/from/to/close) and strerr_die replaced by counting hooks, the .qmail file as .qmail-x in a private home, and never executes a mbox/maildir/program line in real mode (c20_prog does, with the real binary)",
         "the allocator seen by the code under test is the harness's (exact-size blocks, scripted failures): malloc(0) returns a non-null pointer as in glibc",
         "C unsigned int is 32 bits, size_t and unsigned long 64 bits (LP64); __builtin_add_overflow/__builtin_mul_overflow have their documented meaning",
         "the write/read function behind a substdio returns between 1 and len bytes or -1 (a write returning 0 loops forever by design: 'luser's fault'); substdio_get/getthis are called with len < 2^31 (getthis takes an int)",
@@ -307,7 +323,7 @@ def main():
                     found_input=True)
     else:
         standard_verdict(c, ok, stats, disagree, oracle, errors,
-                         "Nq.Stralloc / Nq.Substdio / Nq.Dns / Nq.FixedBuf / Nq.Users.cdbSeek / Nq.Spawn.reportBody vs gen_allocdefs.h, stralloc_*.c, quote.c, substdo.c, substdi.c, dns.c, qmail-qmqpd.c, qmail-qmtpd.c, qmail-getpw.c, qmail.c, cdb_seek.c, qmail-[lr]spawn.c",
+                         "Nq.Stralloc / Nq.Substdio / Nq.Dns / Nq.FixedBuf / Nq.Users.cdbSeek / Nq.Spawn.reportBody / Nq.TokPass / Nq.TokFill / Nq.LocalPass / Nq.Getln vs gen_allocdefs.h, stralloc_*.c, quote.c, substdo.c, substdi.c, dns.c, qmail-qmqpd.c, qmail-qmtpd.c, qmail-getpw.c, qmail.c, cdb_seek.c, qmail-[lr]spawn.c, token822.c, qmail-local.c, getln2.c, getln.c, byte_chr.c",
                          neighbourhood, replay_hint="./check C20 --replay <file of case lines: the in= value with | replaced by spaces>")
     c.finish()
 
